@@ -25,9 +25,11 @@ What is understood (nothing more):
     arguments are filled from constant defaults; a public method may have extra trailing parameters with constant
     defaults (the modelled call path uses the defaults);
   * no-ops: docstrings, annotations, `pass`, console `print`, calls on a `logging.Logger` / the `logging` module (resolved
-    by value), `self._log_event(...)`, `self._events.<anything>(...)` — all with call-free arguments —, writes to
-    `_terminated_at` / `_events`, and an `if` all of whose branches are no-ops; the container type of `_events` is
-    irrelevant (`_log_event` is only checked to write no modelled field and to call no own method);
+    by value), writes to `_terminated_at`, and an `if` all of whose branches are no-ops;
+  * the event log: `self._log_event(...)` (payload call-free and total) -> one entry, `events := logged 1 events`;
+    `self._events.clear()` / `self._events = []` -> `events := 0`; what `_log_event` itself does (append one entry, keep the
+    last `logCap`) is MEASURED on the real method by the E5 probe, and `_log_event` is checked to write no modelled field
+    and to call no own method;
   * `self.on_phase_change(a, b)` / `self.on_senescence(r)` -> appended to the emitted-events list; `if self.on_...:`
     counts as true (the events list IS what an installed callback sees).
 Anything else: the method (and every method calling it) becomes `untranslatable "<construct (line)>"`, so exactly its
@@ -59,7 +61,7 @@ FIELDS = {
     "_senescence_reason": ("reason", "oreason"), "_started_at": ("started", "otime"),
     "_last_activity": ("lastAct", "otime"),
 }
-DROPPED_FIELDS = {"_terminated_at", "_events"}
+DROPPED_FIELDS = {"_terminated_at"}
 CFG = {"max_operations": ("cfg.maxOps", "nat"), "error_threshold": ("cfg.errThr", "nat"),
        "allow_renewal": ("cfg.allowRenew", "bool"), "max_lifetime": ("cfg.life", "odur"),
        "idle_timeout": ("cfg.idle", "odur")}
@@ -625,10 +627,6 @@ class Translator:
                 args = v.args + [k.value for k in v.keywords]
                 if isinstance(f, ast.Name) and f.id == "print":
                     return self.callfree(args, allow_fmt=True)
-                if is_self(f, "_log_event"):
-                    return self.callfree(args)
-                if isinstance(f, ast.Attribute) and is_self(f.value, "_events"):
-                    return self.callfree(args)
                 if isinstance(f, ast.Attribute) and self.is_logger(f.value):
                     return self.callfree(args, allow_fmt=True)
             return False
@@ -809,6 +807,13 @@ class Translator:
                 if len(tg) != 1:
                     bad(st, "multiple assignment targets")
                 tgt, val = tg[0], self.ex(st.value, env)
+            if is_self(tgt, "_events") and isinstance(st, (ast.Assign, ast.AnnAssign)):
+                v_ = st.value
+                if (isinstance(v_, ast.List) and not v_.elts) or (isinstance(v_, ast.Call) and isinstance(v_.func, ast.Name)
+                                                                  and v_.func.id == "list" and not v_.args and not v_.keywords):
+                    ctx["pure"] = False
+                    return "\n".join(pre + [f"{pad}let s : State := {{ s with events := 0 }}", self.body(rest, env, ind)])
+                bad(st, "assignment to self._events other than an empty list")
             if is_self(tgt):
                 if tgt.attr not in FIELDS:
                     bad(st, f"assignment to self.{tgt.attr}")
@@ -834,6 +839,18 @@ class Translator:
             if ((is_self(f, "_log_event") or (isinstance(f, ast.Name) and f.id == "print"))
                     and not all(self.total(a) for a in call.args + [k.value for k in call.keywords])):
                 bad(st, "payload of a dropped call may raise (division / indexing / attribute of an Optional field)")
+            if is_self(f, "_log_event"):
+                # one entry appended to the event log, capped (the behaviour of `_log_event` itself is MEASURED by the E5
+                # probe: Gen.TelomereConsts.logCap); the payload is dropped and must be call-free and total
+                if not self.callfree(call.args + [k.value for k in call.keywords]):
+                    bad(st, "payload of _log_event contains a call")
+                ctx["pure"] = False
+                return f"{pad}let s : State := {{ s with events := logged 1 s.events }}\n{self.body(rest, env, ind)}"
+            if isinstance(f, ast.Attribute) and is_self(f.value, "_events"):
+                if f.attr == "clear" and not call.args and not call.keywords:
+                    ctx["pure"] = False
+                    return f"{pad}let s : State := {{ s with events := 0 }}\n{self.body(rest, env, ind)}"
+                bad(st, f"self._events.{f.attr}(...) outside _log_event")
             if is_self(f, "on_phase_change") and len(call.args) == 2 and not call.keywords:
                 a, b = self.ex(call.args[0], env), self.ex(call.args[1], env)
                 if a[1] != "phase" or b[1] != "phase":
@@ -861,7 +878,7 @@ class Translator:
         if fn is None:
             raise Unsupported("_log_event not found")
         for n in ast.walk(fn):
-            if is_self(n) and isinstance(n.ctx, (ast.Store, ast.Del)) and n.attr not in DROPPED_FIELDS:
+            if is_self(n) and isinstance(n.ctx, (ast.Store, ast.Del)) and n.attr not in DROPPED_FIELDS | {"_events"}:
                 bad(n, f"_log_event writes self.{n.attr}")
             if isinstance(n, ast.Call) and is_self(n.func):
                 bad(n, f"_log_event calls self.{n.func.attr}")
